@@ -74,7 +74,8 @@ Fixpoint plain (e : expr) : Prop :=
   | Opt e | ExpectNot e | Rep e _ _ => plain e
   | Class _ ms => (fix all (l : list (option nat * bool * expr)) : Prop :=
                      match l with [] => True | (_, _, x) :: l' => plain x /\ all l' end) ms
-  | OpTable _ _ _ _ | RefL _ | Call _ _ => True
+  | OpTable _ _ _ _ => True
+  | RefL _ | Call _ _ => False          (* template calls aside: an argument may carry a value parsed elsewhere *)
   end.
 Lemma plain_Forall es :
   (fix all (l : list expr) : Prop := match l with [] => True | x :: l' => plain x /\ all l' end) es -> Forall plain es.
@@ -206,8 +207,8 @@ End Loops.
 End G.
 
 Section M.
-Variables (g : list (list nat * expr)) (ignored : option nat) (t : list nat) (rx : nat -> nat -> option nat).
-Notation PEG := (peg g ignored t rx).
+Variables (g funs : list (list nat * expr)) (ignored : option nat) (t : list nat) (rx : nat -> nat -> option nat).
+Notation PEG := (peg g funs ignored t rx).
 Notation len := (length t).
 
 Hypothesis rx_ok : forall id p q, rx id p = Some q -> p <= q /\ q <= len.
@@ -381,7 +382,7 @@ Proof.
         destruct (field_name name isf); cbn; auto. }
     apply (HC ms E p [] (le_n _) Hp I Hpl H).
   - discriminate.
-  - discriminate.
-  - discriminate.
+  - contradiction.
+  - contradiction.
 Qed.
 End M.
